@@ -202,3 +202,71 @@ def refs_other(req):
 
 
 HANDLERS.update(refs_disk=refs_disk, refs_ids=refs_ids, refs_other=refs_other)
+
+
+# ---------------------------------------------------------------- the packed-refs file as text
+def packed_write(req):
+    """write_packed_refs over the given refs (with or without peeled values)"""
+    import io
+    out = []
+    for case in req["cases"]:
+        refs = {bytes.fromhex(n): bytes.fromhex(s) for n, s, p in case["items"]}
+        peeled = {bytes.fromhex(n): bytes.fromhex(p) for n, s, p in case["items"] if p != "-"} if case["peeled"] else None
+        f = io.BytesIO()
+        try:
+            RF.write_packed_refs(f, refs, peeled)
+            out.append(f.getvalue().hex() or "_")
+        except Exception as e:  # noqa: BLE001
+            out.append("exc:" + type(e).__name__)
+    return {"out": out}
+
+
+def packed_read(req):
+    """DiskRefsContainer.get_packed_refs / get_peeled's table on a packed-refs file with the given content"""
+    out = []
+    d = tempfile.mkdtemp(prefix="verif-pkfile-", dir=os.environ.get("VERIF_SCRATCH") or None)
+    try:
+        os.makedirs(os.path.join(d, "refs"))
+        for h in req["files"]:
+            with open(os.path.join(d, "packed-refs"), "wb") as f:
+                f.write(bytes.fromhex(h) if h != "_" else b"")
+            c = RF.DiskRefsContainer(d)
+            try:
+                packed = c.get_packed_refs()
+                peeled = c._peeled_refs or {}
+                out.append(";".join("%s:%s:%s" % (n.hex(), s.hex(), peeled[n].hex() if n in peeled else "-") for n, s in sorted(packed.items())) or "_")
+            except (RF.PackedRefsException, StopIteration) as e:
+                out.append("none")
+            except Exception as e:  # noqa: BLE001
+                out.append("exc:" + type(e).__name__)
+        return {"out": out}
+    finally:
+        shutil.rmtree(d, ignore_errors=True)
+
+
+def packed_git(req):
+    """what C git makes of the same file: for-each-ref with objectname and the peeled value"""
+    out = []
+    tpl, _ids = template()
+    d = tempfile.mkdtemp(prefix="verif-pkgit-", dir=os.environ.get("VERIF_SCRATCH") or None)
+    try:
+        g = os.path.join(d, "g.git")
+        shutil.copytree(tpl, g)
+        for h in req["files"]:
+            with open(os.path.join(g, "packed-refs"), "wb") as f:
+                f.write(bytes.fromhex(h) if h != "_" else b"")
+            r = _git(["for-each-ref", "--format=%(refname) %(objectname)"], g)
+            if r.returncode != 0:
+                out.append("none")
+            else:
+                out.append(";".join("%s:%s" % (l.split(b" ")[0].hex(), l.split(b" ")[1].hex()) for l in sorted(r.stdout.split(b"\n")) if l) or "_")
+        return {"out": out}
+    finally:
+        shutil.rmtree(d, ignore_errors=True)
+
+
+def packed_ids(req):
+    return {"ids": [i.decode() for i in template()[1]]}
+
+
+HANDLERS.update(packed_write=packed_write, packed_read=packed_read, packed_git=packed_git, packed_ids=packed_ids)
